@@ -612,7 +612,9 @@ func OracleC06(ix *Index) ([]vp.Violation, Judged, string) {
 				break
 			}
 			switch x.Kind {
-			case rig.KSrcAck, rig.KSrcEmit, rig.KDstWrite, rig.KDstAck, rig.KProcCall, rig.KSrcTeardown, rig.KDstTeardown, rig.KProcTeardown, rig.KSrcStop, rig.KDstStop:
+			// only events the ENGINE produces (calls into plugins); what a fake plugin logs on
+			// its own initiative (an emit it is about to attempt, an ack it is about to send) is not engine activity
+			case rig.KSrcAck, rig.KDstWrite, rig.KProcCall, rig.KSrcTeardown, rig.KDstTeardown, rig.KProcTeardown, rig.KSrcStop, rig.KDstStop:
 				j.Obligations++
 				add("plugin-activity-after-return", fmt.Sprintf("plugin event %s on %s at event %d after stop-and-wait returned at %d", x.Kind, x.Comp, i, r), i)
 			}
